@@ -133,9 +133,9 @@ func checkArrayAlgebra(p *Program, r *Report, prop string) {
 			r.Fail("R01.1", key, p.Pos(s.pos), fmt.Sprintf("%s must have unit %s (S=storage cells, R=allocated index, V=view index) but the value has unit %s: the formula is wrong for every non-unit step of an ancestor view", s.what, s.want, s.got))
 		}
 	}
-	floor := 100
+	floor := 50
 	if prop == "C03" {
-		floor = 40
+		floor = 20
 	}
 	r.Floor("R01.1", "unit sinks (field stores, Impl indexings, Index results)", nSinks, floor)
 
@@ -244,9 +244,9 @@ func checkArrayAlgebra(p *Program, r *Report, prop string) {
 			}
 		}
 	}
-	floor4 := 60
+	floor4 := 24
 	if prop == "C03" {
-		floor4 = 25
+		floor4 = 9
 	}
 	r.Floor("R01.4", "stride/shape constructions", n4, floor4)
 
